@@ -164,9 +164,10 @@ pub fn run(o: &Opts) -> Report {
     const SGR: &[&str] = &["\x1b[1m", "\x1b[0m", "\x1b[4m", "\x1b[38;5;12m", "\x1b[1;31m"];
     for _ in 0..(if o.thorough() { 150_000 } else { 25_000 }) {
         let nseg = 1 + rng.below(5);
+        let no_esc = rng.chance(1, 5);
         let mut segs: Vec<(bool, String)> = vec![];
         for _ in 0..nseg {
-            if rng.chance(1, 2) && segs.last().map(|s| !s.0).unwrap_or(true) == true && !segs.is_empty() || (segs.is_empty() && rng.chance(1, 3)) {
+            if !no_esc && (rng.chance(1, 2) && segs.last().map(|s| !s.0).unwrap_or(true) == true && !segs.is_empty() || (segs.is_empty() && rng.chance(1, 3))) {
                 segs.push((true, rng.pick(SGR).to_string()));
             } else {
                 let mut t = gen_text(&mut rng, false);
@@ -188,6 +189,15 @@ pub fn run(o: &Opts) -> Report {
         if in_e != out_e { rep.oracle_fail("styled-escapes-changed", &req, &format!("out={out:?}")); }
         let vis = |s: &str| -> String { let mut r = String::new(); let mut inesc = false; for c in s.chars() { if c == '\x1b' { inesc = true; } else if inesc { if c == 'm' { inesc = false; } } else if !is_ws(c) { r.push(c); } } r };
         if vis(&full) != vis(&out) { rep.oracle_fail("styled-visible-content-changed", &req, &format!("out={out:?}")); }
+        if !full.contains('\x1b') {
+            // styled text without any styling wraps exactly like plain text (then the final trim_end)
+            let plain = hook::wrap(&full, w);
+            if out != plain.trim_end() { rep.oracle_fail("unstyled-styledstr-differs-from-plain-wrap", &req, &format!("styled={out:?} plain={plain:?}")); }
+            let mut f = vec![];
+            oracle_plain(&full, w, &plain, &mut f);
+            for (c, d) in f { rep.oracle_fail(&c, &req, &d); }
+            rep.count("styled_without_escapes");
+        }
         rep.case(&req, out != full);
         rep.count("styled");
         reqs.push(req);
